@@ -98,7 +98,10 @@ pub fn check_case(c: &Case, rep: &mut Report) {
     // one case in four runs without TLS, on a transport that takes only a few bytes per write call once the session
     // is active (the submissions then go to the layer below RdpClient, whose button mapping is reproduced here)
     let short_writes = c.gen[1] % 4 == 1;
-    let plain = short_writes || c.gen[1] % 4 == 3;
+    // a third kind of plain session: the application polls a silent server now and then (a read that finds nothing
+    // fails with WouldBlock / TimedOut at a frame boundary and consumes nothing); input goes on as before
+    let polling = c.gen[1] % 8 == 2;
+    let plain = short_writes || c.gen[1] % 4 == 3 || polling;
     let opened = mon::guarded(|| -> Result<session::Session, String> {
         let mut s = if plain { session::open_plain(profile.clone(), false)? } else { session::open_real(profile.clone(), false)? };
         s.activate()?;
@@ -136,6 +139,11 @@ pub fn check_case(c: &Case, rep: &mut Report) {
         let chunk = [1usize, 16, 47, 5][(c.gen[1] / 4 % 4) as usize];
         s.server.with(|sv| sv.write_chunk = chunk);
         rep.hist("short-write-transport");
+    }
+    if polling {
+        let kind = if c.gen[1] / 8 % 2 == 0 { std::io::ErrorKind::WouldBlock } else { std::io::ErrorKind::TimedOut };
+        s.server.with(|sv| sv.empty_read_error = Some(kind));
+        rep.hist("polling-a-silent-server");
     }
     let mut nev = s.server.with(|sv| sv.events.len());
     let mut viol: Vec<(String, String)> = Vec::new();
@@ -180,6 +188,10 @@ pub fn check_case(c: &Case, rep: &mut Report) {
                 continue;
             }
         };
+        if polling && i % 5 == 2 && s.server.with(|sv| sv.out.is_empty()) {
+            // nothing is queued: this read fails without consuming anything; it must not change what happens to input
+            let _ = mon::guarded(|| s.client.read(|_| {}).is_ok());
+        }
         let is_input = matches!(op, Op::Pointer { .. } | Op::Key { .. });
         let refused_here = refusal && is_input && input_no == refuse_at_op;
         if is_input {
